@@ -2,7 +2,7 @@
    ONLY statements: each theorem is closed by `exact` of a lemma proved elsewhere and followed by Print Assumptions. *)
 From Coq Require Import ZArith NArith List Bool Lia Permutation SpecFloat.
 Import ListNotations.
-Require Import Base Float Strings Builtins Interp Machine Spec Refine2 RunG Order Arith PowBool LinkArith LinkKinds Eq Complex.
+Require Import Base Float Strings Builtins Interp Machine Spec Refine2 RunG Eq Order Arith PowBool LinkArith LinkKinds Complex.
 Open Scope Z_scope.
 (* ㅈ decides the order of the EXACT values of finite reals - integers of any size, doubles in canonical form, mixed freely (sval = value * 2^1074, an integer) *)
 Theorem lt_is_value_order a b :
@@ -26,6 +26,19 @@ Theorem lt_trichotomy a b :
   (lt_val a b = true /\ lt_val b a = false /\ sval a <> sval b) \/ (lt_val a b = false /\ lt_val b a = true /\ sval a <> sval b) \/ (lt_val a b = false /\ lt_val b a = false /\ sval a = sval b).
 Proof. exact (Order.lt_trichotomy a b). Qed.
 Print Assumptions lt_trichotomy.
+
+(* ㄴ on finite reals - integer against double included - is equality of the exact values *)
+Theorem eq_is_value_equality a b :
+  finite_real a -> finite_real b -> (num_eq a b = true <-> sval a = sval b).
+Proof. exact (Order.eq_is_value_equality a b). Qed.
+Print Assumptions eq_is_value_equality.
+
+(* exactly one of a ㅈ b, b ㅈ a, a ㄴ b *)
+Theorem lt_eq_trichotomy a b :
+  finite_real a -> finite_real b ->
+  (lt_val a b = true /\ lt_val b a = false /\ num_eq a b = false) \/ (lt_val a b = false /\ lt_val b a = true /\ num_eq a b = false) \/ (lt_val a b = false /\ lt_val b a = false /\ num_eq a b = true).
+Proof. exact (Order.lt_eq_trichotomy a b). Qed.
+Print Assumptions lt_eq_trichotomy.
 
 (* the built-in on evaluated arguments is that comparison *)
 Theorem bi_lt_is_lt_val (rec:list positive -> heap -> world -> task -> out) sp a b ip h w :
